@@ -40,6 +40,18 @@ def base_blobs(seed: int, which: t.Optional[t.Sequence[str]] = None) -> t.List[B
                     continue
                 blob = online.ref_blob(rng, rkid, rk, online.gen_sid(rng, n=1 + k % 5), (361, rng.randrange(32), rng.randrange(32)), "nonce" if cfgname == "nonce" else "public", pt, in_envelope=(layout == "envelope"), domain="mut.test")
                 out.append(Base(name, blob, pt, rkid, rk, cfgname, layout))
+    # two more bases whose PLAINTEXT is itself a valid blob for the same root key (data that looks like other data: a secret
+    # that is a DPAPI-NG blob is an ordinary secret and must come back as those bytes, whatever is flipped around it)
+    rng2 = random.Random(f"mutate-nested:{seed}")
+    rkid = uuid.UUID(int=rng2.getrandbits(128))
+    rk = online.root_key(rng2, "SHA256", "DH")
+    for layout in ("envelope", "trailing"):
+        name = f"NESTED-nonce-{layout}"
+        inner = online.ref_blob(rng2, rkid, rk, "S-1-5-21-7-8-9-500", (361, 2, 3), "nonce", b"inner secret", in_envelope=True, domain="mut.test")
+        if which is not None and name not in which:
+            continue
+        blob = online.ref_blob(rng2, rkid, rk, "S-1-5-21-7-8-9-500", (361, 4, 5), "nonce", inner, in_envelope=(layout == "envelope"), domain="mut.test")
+        out.append(Base(name, blob, inner, rkid, rk, "nonce", layout))
     return out
 
 
@@ -212,6 +224,17 @@ def keyid_boundary_mutations(b: Base, rng: random.Random) -> t.Iterator[t.Tuple[
     # SID strings in the descriptor
     for sid in ("S-1-5-4294967296", "S-1-281474976710656-1", "S-1-18446744073709551616-1", "S-1-5", "S-1-5-" + "-".join(["1"] * 16), "S-1-5-١٢", "S-1-5-18\n", "", "S-1-5--1", "S-1-5-" + "9" * 5000, "S-1-5-1" + "-1" * 3000, "\x00", "S-1-5-18\x00"):
         yield f"sid-{sid[:20]!r}", rebuild(p["key_identifier"], sid=sid)
+    # SID-like strings from a small grammar: other numeral notations (hex / octal / binary / exponent / digit separators /
+    # signs / full-width digits) with values below, at and far above the field widths - a parser that grows a "compatible"
+    # notation must still keep every value in range (or reject the string with ValueError)
+    heads = ["S", "S", "S", "s", "S ", ""]
+    revs = ["1", "1", "1", "0x1", "01", "+1", "\uff11"]
+    auths = ["5", "0x5", "0X5", "0x000000000005", "0xFFFFFFFFFFFF", "0x1000000000000", "0x10000000000000000", "0x" + "F" * 40, "0o5", "0b101", "5e3", "1_0", "\uff15", "-5", "+5", " 5", "281474976710655", "281474976710656", "0"]
+    subs = ["18", "0x12", "0xFFFFFFFF", "0x100000000", "0x10000000000000000", "0x" + "f" * 64, "4294967295", "4294967296", "1_000", "1e3", "0o17", "+1", "-1", " 1", "1 ", "\uff12", "0", "00", "0x0"]
+    for _ in range(160):
+        parts = [rng.choice(heads), rng.choice(revs), rng.choice(auths)] + [rng.choice(subs) for _ in range(rng.choice([1, 1, 2, 3, 5, 15, 16]))]
+        sid = "-".join(parts)
+        yield f"sid-grammar-{sid[:40]!r}", rebuild(p["key_identifier"], sid=sid)
     for pos in range(15):
         subs = ["7"] * 15
         subs[pos] = str(2**32 + pos)
@@ -326,3 +349,15 @@ def random_der_tree(rng: random.Random, depth: int = 0) -> bytes:
         return b"\x05\x00"
     kids = b"".join(random_der_tree(rng, depth + 1) for _ in range(rng.randrange(0, 5)))
     return der.tlv(rng.choice([0, 0, 2]), True, rng.choice([16, 17, 0, 2]), kids)
+
+
+def with_position(blob: bytes, l0: int, l1: int, l2: int) -> bytes:
+    """The same blob with the three position fields of its key identifier overwritten (all lengths unchanged)."""
+    p = cms.parse(blob)
+    kid = p["key_identifier"]
+    off = blob.find(kid)
+    if off < 0:
+        return blob
+    new = bytearray(blob)
+    new[off + 12 : off + 24] = (l0 & 0xFFFFFFFF).to_bytes(4, "little") + (l1 & 0xFFFFFFFF).to_bytes(4, "little") + (l2 & 0xFFFFFFFF).to_bytes(4, "little")
+    return bytes(new)
